@@ -6,6 +6,7 @@ import (
 
 	"github.com/ethereum/go-ethereum/common"
 	"github.com/ethereum/go-ethereum/core/state"
+	"github.com/ethereum/go-ethereum/core/tracing"
 	"github.com/ethereum/go-ethereum/core/types"
 	"github.com/ethereum/go-ethereum/crypto"
 	"github.com/ethereum/go-ethereum/rlp"
@@ -36,6 +37,9 @@ func (m *Machine) Reopen(root common.Hash, prefetch bool) error {
 		return err
 	}
 	m.SDB = sdb
+	if m.Counter != nil {
+		m.Sentinel = sdb.GetNonce(SentinelAddr)
+	}
 	m.Tx, m.InTx, m.SnapIDs, m.LastBAL, m.LastRoot = 0, false, nil, nil, root
 	if prefetch {
 		sdb.StartPrefetcher("c14", nil)
@@ -48,6 +52,12 @@ func (m *Machine) Reopen(root common.Hash, prefetch bool) error {
 // from the committed root, commit error, reopen error.
 func (m *Machine) Commit(prefetch bool) (common.Hash, []string) {
 	var problems []string
+	if m.Counter != nil {
+		// the "sender nonce" of this block: makes the post-state root unique, as in a real chain
+		*m.Counter++
+		m.Sentinel = *m.Counter
+		m.SDB.SetNonce(SentinelAddr, m.Sentinel, tracing.NonceChangeUnspecified)
+	}
 	pre := m.SDB.Copy()
 	iroot := pre.IntermediateRoot(m.R)
 	root, err := m.SDB.Commit(m.R, uint64(m.Blk))
@@ -70,10 +80,10 @@ func stBytes(v int64) []byte { return common.TrimLeftZeroes(Val(v).Bytes()) }
 // bypassing StateDB: the account trie and storage tries, the flat reader of the path
 // database or the snapshot tree, the code database and the state iterators.  Every read must
 // return exactly the model world w.
-func (u *Universe) VerifyReaders(env *Env, root common.Hash, w World) []string {
+func (u *Universe) VerifyReaders(env *Env, root common.Hash, w World, sentinel uint64) []string {
 	var problems []string
 	bad := func(f string, a ...any) { problems = append(problems, fmt.Sprintf(f, a...)) }
-	if want := u.RefRoot(w); root != want {
+	if want := u.RefRootS(w, sentinel); root != want {
 		bad("root %x is not the reference root %x of the world", root, want)
 	}
 	codes := state.NewCodeDB(env.Disk).Reader()
@@ -193,6 +203,9 @@ func (u *Universe) VerifyReaders(env *Env, root common.Hash, w World) []string {
 		bad("Iteratee(%x): %v", root, err)
 	} else {
 		want := map[common.Hash]int{}
+		if sentinel != 0 {
+			want[crypto.Keccak256Hash(SentinelAddr.Bytes())] = 0
+		}
 		for a := 1; a <= u.NA; a++ {
 			if w[a-1].Ex {
 				want[crypto.Keccak256Hash(u.Addr(a).Bytes())] = a
@@ -218,6 +231,9 @@ func (u *Universe) VerifyReaders(env *Env, root common.Hash, w World) []string {
 			}
 		}
 		for ah, a := range want {
+			if a == 0 {
+				continue
+			}
 			si, err := it.NewStorageIterator(ah, common.Hash{})
 			if err != nil {
 				bad("NewStorageIterator(a%d): %v", a, err)
